@@ -1224,6 +1224,11 @@ class WidthKind(Base):
 SIZES = [255, 256, 257, 1023, 1024, 1025, 2048, 4097]
 
 
+def _sizes(tier):
+    """The checks whose evaluation in Coq is quadratic in the length keep 4097 for the thorough tier."""
+    return SIZES if tier != 'quick' else SIZES[:-1]
+
+
 def _fkey(v):
     return 'nan' if v != v else float(v).hex()
 
@@ -1284,7 +1289,7 @@ class MovingLarge(Base):
     case_type = 'mv_large'
     check_fn = 'mv_large_check'
     explain_fn = None
-    shard = 4
+    shard = 2
     rule = ('the six moving operators at count / size boundaries: lane lengths 255, 256, 257, 1023, 1024, 1025, 2048, 4097 with windows '
             '1, 2, 3, and windows 255 .. 4097 on lanes 0..5 samples longer (1-D and 2-D, both axes); data = a few long runs of a few '
             'values, given and observed run-length encoded, expanded inside Coq; non-trivial = at least two runs')
@@ -1292,7 +1297,7 @@ class MovingLarge(Base):
     def gen(self, rng, tier):
         reps = 1 if tier == 'quick' else 4
         for _ in range(reps):
-            for k, n in enumerate(SIZES):
+            for k, n in enumerate(_sizes(tier)):
                 dtype = ['float64', 'int16', 'uint8', 'float32'][k % 4]
                 den = 4 if dtype.startswith('float') else 1
                 pool = [0, 4, 8, 12, 20] if dtype == 'uint8' else [-12, -4, 0, 4, 8, 20]
@@ -1343,7 +1348,7 @@ class PatternLarge(Base):
     case_type = 'pd_large'
     check_fn = 'pd_large_check'
     explain_fn = None
-    shard = 3
+    shard = 1
     rule = ('correlation / distance / bcdc at count / size boundaries: traces of 255 .. 4097 samples with patterns of 1..3 samples, and '
             'patterns of 255 .. 2048 samples on traces 1..5 samples longer; runs of a few values, run-length encoded; non-trivial = '
             'non-constant trace and pattern')
@@ -1461,13 +1466,14 @@ class ExtractLarge(Base):
     def gen(self, rng, tier):
         reps = 1 if tier == 'quick' else 4
         for _ in range(reps):
-            for k, K in enumerate(SIZES + [65536]):
+            for k, K in enumerate(SIZES + [65536, 1026, 1500, 2049, 3000, 4095]):
                 for mode in (['average', 'average', 'stack', 'concatenate'] if K <= 4097 else ['average']):
                     dtype = ['float64', 'int16', 'uint8', 'int32'][k % 4]
-                    data = [[rng.choice([0, 3, 8, 15, 40]), 6] for _ in range(rng.randint(3, 6))]      # runs of 6 equal samples
+                    vals = rng.sample([0, 3, 8, 15, 40, 77, 100], rng.randint(4, 6))
+                    data = [[v, 6] for v in vals]                                       # runs of 6 equal samples, all different
                     L = 6 * len(data)
                     before, after = rng.randint(0, 2), rng.randint(0, 2)
-                    pos = [rng.randint(before, L - 1 - after) for _ in range(4)]
+                    pos = [6 * r + rng.randint(2, 3) for r in rng.sample(range(len(data)), 4)]     # inside different runs
                     # unbalanced runs: one full block of 2^m indexes then a short tail, or a few random runs
                     if rng.random() < 0.5 and K > 256:
                         big = 1 << (K.bit_length() - 1)
@@ -1546,7 +1552,7 @@ class PeaksLarge(Base):
     check_fn = 'pk_large_check'
     corr_fn = 'pk_large_corr'
     explain_fn = None
-    shard = 2
+    shard = 1
     rule = ('find_peaks at count / size boundaries: signals of 255 .. 4097 samples (constant: every sample a candidate; periodic: len/2 '
             'or len/3 candidates; a few long plateaus) with distances 0, 1, 2, 3 and 255, 256, 257, 1023, 1024, 1025, len, len+1; signals as '
             '(pattern, repetitions) blocks, results as arithmetic progressions, expanded inside Coq; property clauses (check_fn) and '
@@ -1555,9 +1561,11 @@ class PeaksLarge(Base):
     def gen(self, rng, tier):
         reps = 1 if tier == 'quick' else 3
         for _ in range(reps):
-            for k, n in enumerate(SIZES):
+            for k, n in enumerate(_sizes(tier)):
                 for style in ('constant', 'periodic', 'runs'):
                     ds = [rng.choice([0, 1]), rng.choice([2, 3]), rng.choice([d for d in [255, 256, 257, 1023, 1024, 1025] if d <= n + 1]), rng.choice([n, n + 1])]
+                    if n >= 2048:          # the evaluation is quadratic: two calls are enough there
+                        ds = [ds[rng.randrange(2)], ds[2 + rng.randrange(2)]]
                     yield {'blocks': _blocks(rng, n, style), 'den': 2, 'dtype': ['float64', 'int16', 'uint8', 'int64'][k % 4], 'style': style,
                            'queries': [[d, rng.choice(['-inf', 1, 2, 3])] for d in ds]}
 
@@ -1606,7 +1614,7 @@ class WidthLarge(Base):
     case_type = 'fw_large'
     check_fn = 'fw_large_check'
     explain_fn = None
-    shard = 2
+    shard = 1
     rule = ('find_width at count / size boundaries: signals of 255 .. 4097 samples: periodic (len/2 or len/3 runs), a run of exactly 255 .. 1025 '
             'samples against min_width / max_width / delta at and around its length, a few long runs; both directions; signals as (pattern, '
             'repetitions) blocks, rows as arithmetic progressions, expanded inside Coq and compared with the gap construction (equal to the '
@@ -1615,14 +1623,14 @@ class WidthLarge(Base):
     def gen(self, rng, tier):
         reps = 1 if tier == 'quick' else 3
         for _ in range(reps):
-            for k, n in enumerate(SIZES):
+            for k, n in enumerate(_sizes(tier)):
                 dtype = ['float64', 'int16', 'uint8', 'int64', 'float32'][k % 5]
                 yield {'blocks': _blocks(rng, n, 'periodic'), 'den': 2, 'dtype': dtype, 'style': 'periodic',
                        'queries': [[dr, t, m] for dr in ('positive', 'negative') for t in (1, 2) for m in (['min', 1], ['minmax', 1, 2], ['delta', 2, 1])]}
                 yield {'blocks': _blocks(rng, n, 'runs'), 'den': 2, 'dtype': dtype, 'style': 'runs',
                        'queries': [[dr, rng.choice([0, 1, 2, 3]), m] for dr in ('positive', 'negative') for m in _modes(rng, n, 2, boundary=1)]}
                 # one bracketed run of exactly L samples, L at a boundary, widths at and around L
-                L = rng.choice([s for s in SIZES if s + 2 <= n] or [n - 2])
+                L = rng.choice([x for x in SIZES if x + 2 <= n] or [n - 2])
                 pre = rng.randint(1, n - L - 1)
                 blocks = [[[0], pre], [[4], L], [[0], n - L - pre]]
                 ms = [['min', L - 1], ['min', L], ['min', L + 1], ['minmax', 1, L - 1], ['minmax', L, L], ['delta', L + 1, 1], ['delta', L - 2, 1],
